@@ -512,8 +512,79 @@ class _N7:
         return out
 
 
+# ------------------------------------------------------------------------------------------------
+# N8  filter / itertools.filterfalse / map over a pure callable  ->  the generator expression they abbreviate
+#
+#       filter(F, XS)                 (e for e in XS if F(e))          filter(None, XS)   (e for e in XS if e)
+#       itertools.filterfalse(F, XS)  (e for e in XS if not F(e))
+#       map(F, XS)                    (F(e) for e in XS)
+#     with F one of: a plain name / dotted name (a reference, evaluated to the same object every time);
+#     operator.methodcaller("m", A..)  [F(e) is e.m(A..)];  functools.partial(G, A.., k=K..)  [F(e) is G(A.., e, k=K..)] where
+#     G is a reference and every A / K is a name, dotted name or constant.  list(<generator expression>) becomes the list
+#     comprehension.  One iterable only (map with several is left alone).  The element name is fresh.
+def _pure_ref(n) -> bool:
+    while isinstance(n, ast.Attribute):
+        n = n.value
+    return isinstance(n, ast.Name)
+
+
+def _pure_arg(n) -> bool:
+    return isinstance(n, ast.Constant) or _pure_ref(n)
+
+
+def _apply_callable(f, elem):
+    """AST of F(elem) for a recognised pure callable expression F, or None"""
+    if isinstance(f, ast.Constant) and f.value is None:
+        return elem
+    if _pure_ref(f):
+        return ast.Call(func=f, args=[elem], keywords=[])
+    if isinstance(f, ast.Call) and _pure_ref(f.func):
+        name = ast.unparse(f.func).split(".")[-1]
+        if name == "methodcaller" and f.args and isinstance(f.args[0], ast.Constant) and isinstance(f.args[0].value, str) \
+                and f.args[0].value.isidentifier() and all(_pure_arg(a) for a in f.args[1:]) \
+                and all(k.arg is not None and _pure_arg(k.value) for k in f.keywords):
+            return ast.Call(func=ast.Attribute(value=elem, attr=f.args[0].value, ctx=ast.Load()), args=list(f.args[1:]), keywords=list(f.keywords))
+        if name == "partial" and f.args and _pure_ref(f.args[0]) and all(_pure_arg(a) for a in f.args[1:]) \
+                and all(k.arg is not None and _pure_arg(k.value) for k in f.keywords):
+            return ast.Call(func=f.args[0], args=list(f.args[1:]) + [elem], keywords=list(f.keywords))
+    return None
+
+
+class _N8(ast.NodeTransformer):
+    def __init__(self):
+        self.count = 0
+
+    def visit_Call(self, node):
+        self.generic_visit(node)
+        fn = ast.unparse(node.func) if _pure_ref(node.func) else ""
+        last = fn.split(".")[-1]
+        if last in ("filter", "filterfalse", "map") and fn in ("filter", "map", "itertools.filterfalse", "filterfalse") \
+                and len(node.args) == 2 and not node.keywords and not isinstance(node.args[1], ast.Starred):
+            name = f"_e_{node.lineno}_{node.col_offset}"
+            elem = ast.Name(id=name, ctx=ast.Load())
+            app = _apply_callable(node.args[0], elem)
+            if app is not None and not (last == "map" and app is elem):
+                tgt = ast.Name(id=name, ctx=ast.Store())
+                if last == "map":
+                    gen = ast.GeneratorExp(elt=app, generators=[ast.comprehension(target=tgt, iter=node.args[1], ifs=[], is_async=0)])
+                else:
+                    cond = app if last == "filter" else ast.UnaryOp(op=ast.Not(), operand=app)
+                    gen = ast.GeneratorExp(elt=ast.Name(id=name, ctx=ast.Load()),
+                                           generators=[ast.comprehension(target=tgt, iter=node.args[1], ifs=[cond], is_async=0)])
+                self.count += 1
+                return ast.fix_missing_locations(ast.copy_location(gen, node))
+        if fn == "list" and len(node.args) == 1 and not node.keywords and isinstance(node.args[0], ast.GeneratorExp):
+            g = node.args[0]
+            self.count += 1
+            return ast.copy_location(ast.ListComp(elt=g.elt, generators=g.generators), node)
+        return node
+
+
 def normalise(tree: ast.Module) -> int:
     """rewrites tree in place, returns the number of rewrites"""
+    n8 = _N8()
+    n8.visit(tree)
+    ast.fix_missing_locations(tree)
     st = _Stmts()
     tree.body = st._list(tree.body)
     n1 = _N1()
@@ -540,4 +611,4 @@ def normalise(tree: ast.Module) -> int:
                     if not b:
                         b.append(ast.copy_location(ast.Pass(), fn))
     ast.fix_missing_locations(tree)
-    return n1.count + st.count + n5.count + n7.count
+    return n1.count + st.count + n5.count + n7.count + n8.count
